@@ -7,15 +7,19 @@
 //!           or [["state", r, ts], [idx, parts, total, node_type, exec_mode, percent]]: a VALID checkpoint
 //!           of run r's pipeline id (what a run killed right after a save leaves), written with the
 //!           public CheckpointManager::save_checkpoint
-//!   run   = [src, pre|null, post, crash, partitions|null, cfg|null, damage|null]
+//!   run   = [src, pre|null, post, crash, mode, cfg|null, damage|null]
+//!           mode = null (Sequential) | n (Parallel{threads: harness option, partitions: Some(n)})
+//!                | ["par", t|null] (Parallel{threads: t, partitions: None}: the runner takes the planner's
+//!                  suggestion, else Runner::default_partitions - both are reported in `out`)
 //!           program = pre ++ [an identity `map` whose closure panics while `crash` is set] ++ post
 //!           (pre = null: no injected map, program = post); steps / sources as in Engine/Decode.v
 //!   cfg   = [enabled, policy, max_checkpoints|null, auto_recover]
 //!           policy = ["barrier"] | ["every", n] | ["time", secs] | ["hybrid", barriers, secs]
 //!           (secs = 0 or >= 3600, anything in between would depend on the wall clock)
 //!   damage (applied after the run to the newest checkpoint file of that run's pipeline id)
-//!         = ["trunc", k] | ["set", bytes] | ["patch", offset, bytes]
-//! out = [digests, listing0, [[outcome, plain outcome, chain length, listing], ..]]
+//!         = ["trunc", k] | ["set", bytes] | ["patch", offset, bytes] | ["xor", offset, mask]
+//! out = [digests, listing0, [[outcome, plain outcome, chain length, listing, suggested|null, default], ..]]
+//!   suggested = build_plan(..).suggested_partitions, default = Runner::default().default_partitions
 //!   digests = [[string, {"bytes": sha256(string)}], ..] for the strings "<len>" and "<len>:<parts>"
 //!             of every run (len = length of the real plan's chain)
 //!   plain outcome = the same pipeline (same crash flag) run without checkpoint configuration
@@ -52,6 +56,7 @@ enum Damage {
     Trunc(usize),
     Set(Vec<u8>),
     Patch(usize, Vec<u8>),
+    Xor(usize, u8),
 }
 #[derive(Clone, Debug)]
 struct Cfg {
@@ -67,6 +72,8 @@ struct RunSpec {
     post: Vec<Step>,
     crash: bool,
     mode: Mode,
+    /// Some(threads): Parallel { threads, partitions: None } (`mode` is then a placeholder)
+    auto_parts: Option<Option<usize>>,
     cfg: Option<Cfg>,
     damage: Option<Damage>,
 }
@@ -82,6 +89,7 @@ enum NameSpec {
 struct StateSpec {
     idx: usize,
     parts: usize,
+    /// usize::MAX is written "max" in the case (integers stay below 2^62)
     total: usize,
     ntype: String,
     mode: String,
@@ -159,6 +167,7 @@ fn damage_json(d: &Option<Damage>) -> Value {
         Some(Damage::Trunc(k)) => json!(["trunc", k]),
         Some(Damage::Set(b)) => json!(["set", bytes_json(b)]),
         Some(Damage::Patch(o, b)) => json!(["patch", o, bytes_json(b)]),
+        Some(Damage::Xor(o, m)) => json!(["xor", o, m]),
     }
 }
 fn parse_damage(j: &Value) -> R<Option<Damage>> {
@@ -172,6 +181,7 @@ fn parse_damage(j: &Value) -> R<Option<Damage>> {
         ("trunc", 2) => Damage::Trunc(small(&a[1])?),
         ("set", 2) => Damage::Set(parse_bytes(&a[1])?),
         ("patch", 3) => Damage::Patch(small(&a[1])?, parse_bytes(&a[2])?),
+        ("xor", 3) => Damage::Xor(small(&a[1])?, a[2].as_u64().filter(|m| *m < 256).ok_or("mask")? as u8),
         _ => return Err("damage".into()),
     }))
 }
@@ -187,7 +197,10 @@ fn run_json(r: &RunSpec) -> Value {
         r.pre.as_ref().map(|p| steps_json(p)),
         steps_json(&r.post),
         r.crash,
-        mode_json(r.mode),
+        match r.auto_parts {
+            Some(t) => json!(["par", t]),
+            None => mode_json(r.mode),
+        },
         cfg_json(&r.cfg),
         damage_json(&r.damage)
     ])
@@ -199,7 +212,20 @@ fn parse_run(j: &Value) -> R<RunSpec> {
         pre: if a[1].is_null() { None } else { Some(parse_steps(&a[1])?) },
         post: parse_steps(&a[2])?,
         crash: a[3].as_bool().ok_or("crash")?,
-        mode: parse_mode(&a[4])?,
+        mode: if a[4].is_array() { Mode::Par(0) } else { parse_mode(&a[4])? },
+        auto_parts: match a[4].as_array() {
+            None => None,
+            Some(m) => {
+                if m.len() != 2 || m[0].as_str() != Some("par") {
+                    return Err("mode".into());
+                }
+                Some(if m[1].is_null() {
+                    None
+                } else {
+                    Some(m[1].as_u64().filter(|t| (1..=64).contains(t)).ok_or("threads")? as usize)
+                })
+            }
+        },
         cfg: parse_cfg(&a[5])?,
         damage: parse_damage(&a[6])?,
     };
@@ -226,7 +252,8 @@ fn seeds_json(s: &Seeds) -> Value {
                         NameSpec::Raw(s) => json!(["raw", s]),
                         NameSpec::Pid(r, s) => json!(["pid", r, s]),
                         NameSpec::State(r, ts, st) => {
-                            return json!([["state", r, ts], [st.idx, st.parts, st.total, st.ntype, st.mode, st.pct]]);
+                            let total = if st.total == usize::MAX { json!("max") } else { json!(st.total) };
+                            return json!([["state", r, ts], [st.idx, st.parts, total, st.ntype, st.mode, st.pct]]);
                         }
                     };
                     json!([n, bytes_json(b)])
@@ -262,11 +289,12 @@ fn parse_seeds(j: &Value, nruns: usize) -> R<Seeds> {
                 let ts = n[2].as_u64().filter(|t| (1_000_000_000_000..10_000_000_000_000).contains(t)).ok_or("ts")?;
                 let f = e[1].as_array().filter(|f| f.len() == 6).ok_or("state fields")?;
                 let num = |v: &Value| v.as_u64().filter(|x| *x < 1 << 40).map(|x| x as usize).ok_or("field".to_string());
-                let text = |v: &Value| v.as_str().filter(|s| s.is_empty() || name_text_ok(s)).map(String::from).ok_or("text".to_string());
+                // any UTF-8 text up to 4 KiB (a non-ASCII string comes back as a JSON string too)
+                let text = |v: &Value| v.as_str().filter(|s| s.len() <= 4096).map(String::from).ok_or("text".to_string());
                 let st = StateSpec {
                     idx: num(&f[0])?,
                     parts: num(&f[1])?,
-                    total: num(&f[2])?,
+                    total: if f[2].as_str() == Some("max") { usize::MAX } else { num(&f[2])? },
                     ntype: text(&f[3])?,
                     mode: text(&f[4])?,
                     pct: f[5].as_u64().filter(|x| *x < 256).ok_or("pct")? as u8,
@@ -340,10 +368,20 @@ fn collect_with(p: &Pipeline, c: &Coll, runner: &Runner) -> Value {
     }))
     .unwrap_or_else(|_| json!(["panic"]))
 }
-fn exec_mode(m: Mode) -> ExecMode {
-    match m {
+fn exec_mode(r: &RunSpec) -> ExecMode {
+    if let Some(t) = r.auto_parts {
+        return ExecMode::Parallel { threads: t, partitions: None };
+    }
+    match r.mode {
         Mode::Seq => ExecMode::Sequential,
         Mode::Par(n) => ExecMode::Parallel { threads: threads(), partitions: Some(n) },
+    }
+}
+/// the mode with the partition count the runner resolves: partitions.or(suggested).unwrap_or(default)
+fn resolved_mode(r: &RunSpec, suggested: Option<usize>) -> Mode {
+    match r.auto_parts {
+        Some(_) => Mode::Par(suggested.unwrap_or(Runner::default().default_partitions)),
+        None => r.mode,
     }
 }
 /// (outcome, chain length) of one real run; `ck` = checkpoint configuration or None
@@ -352,7 +390,7 @@ fn run_once(r: &RunSpec, ck: Option<CheckpointConfig>, srcdir: &str) -> R<(Value
     let p = Pipeline::default();
     let built = build_run(&p, r, &flag, srcdir)?;
     let len = build_plan(&p, node_of(&built.coll)).map(|pl| pl.chain.len()).map_err(|e| e.to_string());
-    let runner = Runner { mode: exec_mode(r.mode), checkpoint_config: ck, ..Default::default() };
+    let runner = Runner { mode: exec_mode(r), checkpoint_config: ck, ..Default::default() };
     let out = collect_with(&p, &built.coll, &runner);
     if let Some(f) = built.file {
         let _ = std::fs::remove_file(f);
@@ -468,6 +506,13 @@ fn apply_damage(ck: &Path, pid: &str, d: &Damage) {
             }
             v
         }
+        Damage::Xor(off, m) => {
+            let mut v = old.clone();
+            if *off < v.len() {
+                v[*off] ^= *m;
+            }
+            v
+        }
     };
     let _ = std::fs::write(&path, new);
 }
@@ -486,22 +531,25 @@ fn run_case(input: &Value) -> Value {
     let out = (|| -> R<Value> {
         // chain lengths first: the seeds refer to pipeline ids
         let mut lens = vec![];
+        let mut sugg = vec![];
         for r in &runs {
             let flag = Arc::new(AtomicBool::new(false));
             let p = Pipeline::default();
             let b = build_run(&p, r, &flag, &srcdir_s)?;
-            let len = build_plan(&p, node_of(&b.coll)).map_err(|e| e.to_string())?.chain.len();
+            let plan = build_plan(&p, node_of(&b.coll)).map_err(|e| e.to_string())?;
             if let Some(f) = b.file {
                 let _ = std::fs::remove_file(f);
             }
-            lens.push(len);
+            lens.push(plan.chain.len());
+            sugg.push(plan.suggested_partitions);
         }
-        let pids: Vec<String> = runs.iter().zip(&lens).map(|(r, l)| pid_of(&pid_string(*l, r.mode))).collect();
+        let rmodes: Vec<Mode> = runs.iter().zip(&sugg).map(|(r, s)| resolved_mode(r, *s)).collect();
+        let pids: Vec<String> = rmodes.iter().zip(&lens).map(|(m, l)| pid_of(&pid_string(*l, *m))).collect();
         let mut digests: Vec<Value> = vec![];
         let mut seen: Vec<String> = vec![];
-        for (r, l) in runs.iter().zip(&lens) {
+        for (m, l) in rmodes.iter().zip(&lens) {
             let mut strs = vec![format!("{l}")];
-            if let Mode::Par(n) = r.mode {
+            if let Mode::Par(n) = *m {
                 strs.push(format!("{l}:{n}"));
             }
             for s in strs {
@@ -576,7 +624,10 @@ fn run_case(input: &Value) -> Value {
         let runs_obs: Vec<Value> = obs
             .into_iter()
             .enumerate()
-            .map(|(i, (o, plain, len))| json!([o, plain, len, listing_json(&listings[i + 1], &all_ts)]))
+            .map(|(i, (o, plain, len))| {
+                json!([o, plain, len, listing_json(&listings[i + 1], &all_ts), sugg[i],
+                       Runner::default().default_partitions])
+            })
             .collect();
         Ok(json!([digests, listing_json(&listings[0], &all_ts), runs_obs]))
     })();
@@ -772,17 +823,23 @@ const MODES: [Mode; 4] = [Mode::Seq, Mode::Par(3), Mode::Par(1), Mode::Par(0)];
 fn mk_run(src: &Src, steps: &[Step], k: Option<usize>, crash: bool, mode: Mode, cfg: Option<Cfg>,
           damage: Option<Damage>) -> RunSpec {
     match k {
-        None => RunSpec { src: src.clone(), pre: None, post: steps.to_vec(), crash, mode, cfg, damage },
+        None => RunSpec { src: src.clone(), pre: None, post: steps.to_vec(), crash, mode, auto_parts: None, cfg, damage },
         Some(k) => RunSpec {
             src: src.clone(),
             pre: Some(steps[..k].to_vec()),
             post: steps[k..].to_vec(),
             crash,
             mode,
+            auto_parts: None,
             cfg,
             damage,
         },
     }
+}
+fn auto(mut r: RunSpec, threads: Option<usize>) -> RunSpec {
+    r.mode = Mode::Par(0);
+    r.auto_parts = Some(threads);
+    r
 }
 fn cfg(policy: CheckpointPolicy, max: Option<usize>, auto: bool) -> Option<Cfg> {
     Some(Cfg { enabled: true, policy, max, auto })
@@ -797,6 +854,9 @@ fn emit(em: &mut Emitter, seeds: &Seeds, runs: &[RunSpec], tags: &[&str]) {
     let mut t: Vec<String> = tags.iter().map(|s| s.to_string()).collect();
     let last = runs.last().unwrap();
     t.push(match last.mode { Mode::Seq => "seq".into(), Mode::Par(_) => "par".into() });
+    if runs.iter().any(|r| r.auto_parts.is_some()) {
+        t.push("partitions-none".into());
+    }
     if runs.iter().any(|r| r.crash) {
         t.push("crash".into());
     }
@@ -941,6 +1001,51 @@ fn generate(seed: u64, tier: Tier, em: &mut Emitter) {
         }
     }
 
+    // 2b. single-byte damage: the newest file a crashed run left with ONE byte overwritten by
+    //     {00, 01, 7f, fb, ff} or one bit flipped, at EVERY offset.  Most such files no longer load;
+    //     those that hit a field the checksum does not protect (exec_mode, total_nodes,
+    //     last_node_type, progress_percent) still decode and pass the integrity check, e.g. with
+    //     total_nodes = 0.  The small file: the "Source" checkpoint (113 bytes) of program 0 crashing
+    //     in its second node; the others: a join's and a parallel "Failed" checkpoint.
+    for (fi, (pi, k, mode)) in [(0usize, 0usize, Mode::Seq), (3, 4, Mode::Seq), (4, 2, Mode::Par(2))].iter().enumerate() {
+        let (src, steps) = &progs[*pi];
+        for off in 0..128usize {
+            let mut ds: Vec<Damage> = vec![];
+            if !quick {
+                for b in [0x00u8, 0x01, 0x7f, 0xfb, 0xff] {
+                    ds.push(Damage::Patch(off, vec![b]));
+                }
+                for bit in 0..8 {
+                    ds.push(Damage::Xor(off, 1 << bit));
+                }
+            } else if fi == 0 {
+                // every offset of the small file; all five values on the tail the checksum does not
+                // protect (exec_mode, total_nodes, last_node_type, progress_percent: offsets >= 93),
+                // two of them (rotating) where any change is caught by the decoder or the checksum
+                let vals = [0x00u8, 0x01, 0x7f, 0xfb, 0xff];
+                if off >= 93 {
+                    for b in vals {
+                        ds.push(Damage::Patch(off, vec![b]));
+                    }
+                } else {
+                    ds.push(Damage::Patch(off, vec![vals[off % 5]]));
+                    ds.push(Damage::Patch(off, vec![vals[(off / 5 + off + 2) % 5]]));
+                }
+                ds.push(Damage::Xor(off, 1 << (off % 8)));
+            } else if (off + fi) % 5 == 0 || off >= 93 {
+                // a stride over the protected part, every offset of the unprotected tail
+                ds.push(Damage::Patch(off, vec![[0x00u8, 0xff, 0x01, 0xfb, 0x7f][(off / 5 + off) % 5]]));
+                ds.push(Damage::Xor(off, 1 << (off % 8)));
+            }
+            for (di, d) in ds.into_iter().enumerate() {
+                let max = MAXES[(off + di) % 4];
+                let first = mk_run(src, steps, Some(*k), true, *mode, cfg(every, max, true), Some(d));
+                let second = mk_run(src, steps, Some(*k), false, *mode, cfg(every, max, true), None);
+                emit(em, &None, &[first, second], &["byte-sweep"]);
+            }
+        }
+    }
+
     // 3. seeded directories: foreign files, files of this pipeline with odd but valid names,
     //    near misses; with and without a crashed run in between
     for (pi, (src, steps)) in progs.iter().enumerate() {
@@ -1012,6 +1117,40 @@ fn generate(seed: u64, tier: Tier, em: &mut Emitter) {
         }
     }
 
+    // 3c. hand-built VALID checkpoints (written by the real save_checkpoint, correct checksum) whose
+    //     UNPROTECTED fields are extreme: total_nodes 0 / 1 / 2^32 / 2^64-1, last_node_type empty /
+    //     long / non-ASCII, exec_mode empty / odd, progress_percent 0 / 100 / 255
+    {
+        let totals = [0usize, 1, 1 << 32, usize::MAX, 3];
+        let ntypes: [String; 5] = ["".into(), "x".repeat(300), "Zu\u{17f}tand \u{1f980}".into(), "Failed".into(),
+                                   "Stateless".into()];
+        let modes_txt: [String; 4] = ["".into(), "sequential".into(), "parallel:0".into(), "\u{e9}t\u{e9} ".repeat(40)];
+        let pcts = [0u8, 100, 255];
+        let mut vi = 0usize;
+        for (ti, total) in totals.iter().enumerate() {
+            for (ni, ntype) in ntypes.iter().enumerate() {
+                vi += 1;
+                if quick && (ti + ni) % 2 != 0 && *total != 0 {
+                    continue;
+                }
+                for (mi, mode) in [Mode::Seq, Mode::Par(2)].iter().enumerate() {
+                    let (src, steps) = &progs[(vi + mi) % 4];
+                    let st = NameSpec::State(0, 1_650_000_000_000 + vi as u64, StateSpec {
+                        idx: [0usize, 1, 7, 1 << 32][(vi + mi) % 4],
+                        parts: [1usize, 0, 2, 1 << 20][(vi / 2) % 4],
+                        total: *total,
+                        ntype: ntype.clone(),
+                        mode: modes_txt[(vi + ni) % 4].clone(),
+                        pct: pcts[(vi + mi) % 3],
+                    });
+                    let seeds = vec![(st, vec![]), (NameSpec::Raw("notes.tmp".into()), vec![1])];
+                    let c = cfg(pols[vi % pols.len()], MAXES[(vi + mi) % 4], true);
+                    emit(em, &Some(seeds), &[mk_run(src, steps, None, false, *mode, c, None)], &["valid-extreme"]);
+                }
+            }
+        }
+    }
+
     // 4. disabled / absent configuration, missing directory
     for (pi, (src, steps)) in progs.iter().enumerate() {
         for mode in [Mode::Seq, Mode::Par(2)] {
@@ -1050,9 +1189,50 @@ fn generate(seed: u64, tier: Tier, em: &mut Emitter) {
         }
     }
 
+    // 5b. Parallel { threads, partitions: None }: the runner resolves the partition count itself
+    //     (planner's suggestion, else default_partitions) and must resolve it the SAME way with and
+    //     without checkpointing: programs with a partition-SENSITIVE batch function (rev / droplast /
+    //     header per chunk) on inputs long enough that 16 and 32 partitions cut differently
+    {
+        let mut vi = 0usize;
+        for n in [64usize, 65, 97, 128, 200] {
+            for (bi, b) in [BFun::Rev, BFun::DropLast, BFun::Header].iter().enumerate() {
+                for (si, size) in [1000usize, 3].iter().enumerate() {
+                    vi += 1;
+                    if quick && (vi + bi) % 2 == 0 {
+                        continue;
+                    }
+                    let src = Src::Vec(Shape::U, (0..n as i64).map(Val::Int).collect());
+                    let mut steps = vec![Step::Map(EFun::Add(1)), Step::MapBatches(*size, b.clone())];
+                    if si == 0 {
+                        steps.extend([Step::KeyBy(EFun::Mod(5)), Step::CombineValues(Cid::Count), Step::Unkey]);
+                    }
+                    let threads = [None, Some(2), Some(5)][vi % 3];
+                    let c = cfg(pols[vi % pols.len()], MAXES[vi % 4], true);
+                    let one = auto(mk_run(&src, &steps, None, false, Mode::Seq, c.clone(), None), threads);
+                    emit(em, &None, &[one], &["auto-parts"]);
+                    let k = 1 + vi % 2;
+                    let first = auto(mk_run(&src, &steps, Some(k), true, Mode::Seq, c.clone(), Some(Damage::Trunc(50))), threads);
+                    let second = auto(mk_run(&src, &steps, Some(k), false, Mode::Seq, c, None), threads);
+                    emit(em, &None, &[first, second], &["auto-parts"]);
+                }
+            }
+        }
+        // keyed, through a join (sub-plans are partitioned with the same count), and the empty / tiny inputs
+        for n in [0usize, 1, 70] {
+            let src = Src::Vec(Shape::KV, (0..n as i64).map(|i| kv(i % 4, i)).collect());
+            let steps = vec![
+                Step::MapValuesBatches(1000, BFun::Rev),
+                Step::Join(JoinKind::Inner, vec![Step::MapValuesBatches(2, BFun::Rev)], right_rows()),
+            ];
+            let c = cfg(every, Some(1), true);
+            emit(em, &None, &[auto(mk_run(&src, &steps, None, false, Mode::Seq, c, None), None)], &["auto-parts"]);
+        }
+    }
+
     // 6. seeded random histories
     let mut rng = seed_mix(seed, 0xC11_0006);
-    let count = if quick { 500 } else { 6000 };
+    let count = if quick { 400 } else { 6000 };
     for _ in 0..count {
         let n = gen_len(&mut rng);
         let src = gen_src(&mut rng, n, true, true);
@@ -1061,8 +1241,18 @@ fn generate(seed: u64, tier: Tier, em: &mut Emitter) {
             o.barriers = false;
             o.joins = false;
         }
-        let mode = if rng.chance(1, 2) { Mode::Seq } else { Mode::Par(gen_parts(&mut rng, src.len())) };
-        let parts = match mode { Mode::Seq => 1, Mode::Par(n) => n };
+        let auto_threads: Option<Option<usize>> =
+            if rng.chance(1, 8) { Some(if rng.chance(1, 2) { None } else { Some(1 + rng.below(4) as usize) }) } else { None };
+        let src = if auto_threads.is_some() {
+            // long, ordered input and partition-sensitive batch functions
+            o.odd_batches = true;
+            let n = 64 + rng.below(90) as usize;
+            if rng.chance(1, 2) { Src::Vec(Shape::U, ints(n, &mut rng)) } else { Src::Vec(Shape::KV, pattern_kv("runs", n, &mut rng)) }
+        } else {
+            src
+        };
+        let mode = if auto_threads.is_some() || rng.chance(1, 2) { Mode::Seq } else { Mode::Par(gen_parts(&mut rng, src.len())) };
+        let parts = match mode { Mode::Seq => if auto_threads.is_some() { 16 } else { 1 }, Mode::Par(n) => n };
         let nsteps = rng.below(10) as usize;
         let (steps, _) = gen_program(&mut rng, &src, &o, nsteps, parts);
         let pol = *rng.pick(&pols);
@@ -1078,15 +1268,16 @@ fn generate(seed: u64, tier: Tier, em: &mut Emitter) {
             1 => Some(Damage::Trunc(rng.below(140) as usize)),
             _ => Some(byte_patterns(&mut rng).swap_remove(rng.below(30) as usize)),
         };
-        let first = mk_run(&src, &steps, Some(k), true, mode, c.clone(), damage);
-        let second = mk_run(&src, &steps, Some(k), false, mode, c.clone(), None);
+        let wrap = |r: RunSpec| match auto_threads { Some(t) => auto(r, t), None => r };
+        let first = wrap(mk_run(&src, &steps, Some(k), true, mode, c.clone(), damage));
+        let second = wrap(mk_run(&src, &steps, Some(k), false, mode, c.clone(), None));
         let seeds = if rng.chance(1, 3) { foreign_seeds(&[0]) } else { None };
         match rng.below(5) {
             0 => {
                 // three runs: crash, crash elsewhere, complete
                 let k2 = rng.below(steps.len() as u64 + 1) as usize;
                 let _ = k2;
-                let again = mk_run(&src, &steps, Some(k), true, mode, c, Some(Damage::Trunc(rng.below(100) as usize)));
+                let again = wrap(mk_run(&src, &steps, Some(k), true, mode, c, Some(Damage::Trunc(rng.below(100) as usize))));
                 emit(em, &seeds, &[first, again, second], &["random", "three-runs"]);
             }
             1 => emit(em, &seeds, &[second], &["random", "single"]),
